@@ -96,6 +96,9 @@ def handle (j : Json) : Json :=
     match r with
     | .error e => jl [Json.str "err", Json.str (errName e)]
     | .ok (ts', pubs) => Json.mkObj [("tasks", jl (ts'.map jtask)), ("pubs", jl (pubs.map jn))]
+  else if op == "cbchain" then
+    let cbs := fun (k : String) => (jarr j k).map (fun c => ({ id := jnat c "id", raises := jbool c "raises" } : Cb))
+    jl ((pilotUpdateCbs (cbs "pilot") (cbs "pmgr")).map jn)
   else if op == "runpilot" then
     let r := runPilot (nOf "pilot") (ofName "pilot" (jstr j "cur")) ((jarr j "seq").map (fun x => ofName "pilot" (asStr x)))
     Json.mkObj [("state", jst "pilot" r.1), ("cbs", jsts "pilot" r.2)]
